@@ -122,7 +122,10 @@ def write_model(system, model, model_path,
         _restore_backups(root, max_backups, rotated)
         raise
     else:
-        _remove_path(pathlib.Path(str(root) + _OLD_POSTFIX))
+        try:
+            _remove_path(pathlib.Path(str(root) + _OLD_POSTFIX))
+        except OSError:
+            pass    # The save is complete; the copy is removed next time
 
     if model.path != root:
         model.path = root
